@@ -12,7 +12,8 @@ from typing import Any, Callable, Optional
 VERIF = os.path.dirname(os.path.dirname(os.path.abspath(__file__)))
 REPO = os.environ.get("VERIF_REPO", "/repo")
 SRC = os.path.join(REPO, "src", "wikitextprocessor")
-GEN = os.path.join(VERIF, ".gen")
+GEN = os.environ.get("VERIF_GEN") or os.path.join(VERIF, ".gen")
+OUT = os.environ.get("VERIF_OUT") or VERIF  # evidence/ and replays/ live here (overridden only by tools/seedmatrix.sh)
 JOBS = int(os.environ.get("VERIF_JOBS", "16"))
 
 
@@ -123,9 +124,9 @@ def known_lookup(pid: str, signature: str) -> Optional[str]:
 
 
 def write_replay(pid: str, v: Violation) -> str:
-    os.makedirs(os.path.join(VERIF, "replays"), exist_ok=True)
+    os.makedirs(os.path.join(OUT, "replays"), exist_ok=True)
     h = hashlib.sha1(v.signature.encode("utf-8", "replace")).hexdigest()[:10]
-    path = os.path.join(VERIF, "replays", f"{pid}-{h}.json")
+    path = os.path.join(OUT, "replays", f"{pid}-{h}.json")
     with open(path, "w") as f:
         json.dump({"property": pid, "signature": v.signature, "what": v.what, "replay": v.replay}, f, indent=1, ensure_ascii=True, default=repr)
     return path
@@ -176,8 +177,8 @@ def finish(rep: Report) -> int:
         "violations": len(new),
         "known_findings_hit": [v.signature for v in rep.violations if v.known is not None],
     }
-    os.makedirs(os.path.join(VERIF, "evidence"), exist_ok=True)
-    with open(os.path.join(VERIF, "evidence", rep.pid + ".json"), "w") as f:
+    os.makedirs(os.path.join(OUT, "evidence"), exist_ok=True)
+    with open(os.path.join(OUT, "evidence", rep.pid + ".json"), "w") as f:
         json.dump(ev, f, indent=1, ensure_ascii=True, default=repr)
     for o in rep.obs:
         print(f"[{rep.pid}] {o.name}: {o.verdict} (conditions={o.conditions} confirmed={o.confirmed_conditions} paths={o.paths} queries={o.queries} solver_s={o.solver_s:.1f}) {o.detail[:300]}")
